@@ -148,6 +148,27 @@ def Value.hashable : Value → Bool
   | .link c _ _ => c == 6
   | _ => false
 
+/-! ### looking a key up in a loaded hash array
+
+`con::set::Archive` files every loaded entry in bucket `Hash<ScriptVariable>()(key) % tableLength` **while the archive
+is open**.  A Listener key is a `SafePtr<Listener>` that `Archiver::Close` resolves later: at that moment
+`key.listenerValue()` is null and hashes 0.  A look-up after the load hashes the listener's address. -/
+
+/-- `Hash<ScriptVariable>` of a key while its entry is being loaded (`hash`: the hash of the other key kinds, the same
+    before and after) -/
+def keyHashAtLoad (hash : Value → Nat) : Value → Nat
+  | .link 6 _ _ => 0
+  | k => hash k
+
+/-- `Hash<ScriptVariable>` of the same key once the archive is closed (`addr`: the address of a listener) -/
+def keyHashAfter (hash : Value → Nat) (addr : Lbl → Nat) : Value → Nat
+  | .link 6 _ o => if o = 0 then 0 else addr o
+  | k => hash k
+
+/-- `array[key]` finds the loaded entry: the bucket it was filed in is the bucket the look-up searches -/
+def foundAfterLoad (hash : Value → Nat) (addr : Lbl → Nat) (tableLength : Nat) (k : Value) : Bool :=
+  keyHashAtLoad hash k % tableLength == keyHashAfter hash addr k % tableLength
+
 /-- the entry loop of `con::set<ScriptVariable, ScriptVariable>::Archive`: `NewEntry()` (key and value variable),
     `Key().ArchiveInternal`, `Value().ArchiveInternal`, then the key is hashed -/
 def readPairsWith (rv : Lbl → Supply → RS → Res (Value × Supply)) :
